@@ -1,4 +1,8 @@
 import NavisModel.Model.Volume
+import NavisModel.Model.VolCache
+import NavisModel.Gen.VolCache
+import NavisModel.Model.InVolumeShape
+import NavisModel.Gen.InVolume
 import NavisModel.Drv.Proto
 /-!
 Line protocol for C18.  Segments are separated by `|`, blanks around separators are ignored.
@@ -13,7 +17,8 @@ Line protocol for C18.  Segments are separated by `|`, blanks around separators 
 Commands
 * `c18.mem solid | pts` → bit string
 * `c18.chkmask solid | pts | bits` → `1`/`0`   (`checkMask` on navis' own mask)
-* `c18.tree MODE | solid | nodes | conns` → `ids|cids`
+* `c18.tree MODE | solid | nodes | conns` → `ids|cids`   (`inVolumeTreeAs` on the shape generated from the source;
+  `c18.prune` = `TreeNeuron.prune_by_volume`, `c18.nlist` = a one-element `NeuronList`; `c18.shape` prints the shape as `1`/`0`/`-` per field)
 * `c18.dots MODE | solid | pts | pconns` → `kept|cid:j,…`
 * `c18.mesh MODE | solid | verts | faces | pconns` → `kept|subset|cid:j,…|nfaces|straddle(0/1)`
 * `c18.dict MODE | volumes | nodes | conns` → `name:ids:cids/…`          (dict of volumes, one neuron)
@@ -21,6 +26,19 @@ Commands
 * `c18.dictpts volumes | pts` → `name:bits/…`
 * `c18.imat MODE | volumes | nodes~conns # nodes~conns …` → `name:n,n,…/…`   (`attr='n_nodes'`)
 * `c18.snap data | ids | queries` → `id:d2;…` (`ids` empty ⇒ row index)
+* `c18.hist solid0 | op | op | …` → one `fresh:usedbits:curbits` per query op, `;`-separated.  A *volume history*: object 0
+  starts as a fresh Volume with geometry `solid0`; ops (blank-separated words)
+  `q i backend rays pts` (query object `i`), `m i mutator P:pose` / `m i mutator S:solid` (in-place mutator: pose the
+  current solid / replace it), `c i P:pose` (copy-like derivation: new object, posed), `p i` (pickle round trip: new
+  object).  The cache behaviour is `Navis.VolCache.step` run on the `Spec` **generated from the current source**
+  (`Gen/VolCache.lean`); `usedbits` is the membership of `pts` in the geometry the answer is computed from, `curbits` in
+  the current geometry of the object, `fresh` = `1` iff the two geometries are the same solid.
+* `c18.cachespec` → the generated spec (`backend=attr/raysKeyed,…|mutator=clears+clears,…|drops`)
+* `c18.vox MODE | solid | cells | values | ux,uy,uz | ox,oy,oz` → `cells|values` (VoxelNeuron; `cells` are voxel indices)
+* `c18.chkvox MODE | solid | cells | values | units | offset | keptcells | keptvalues` → `1`/`0` (`checkVoxKept`)
+* `c18.backend available,… | requested,…` → selected back-end or `ERR:none-available`
+* `c18.rays default | n` (`n` an integer or `None`) → effective ray count or `ERR:value`
+* `c18.pyoc bboxbits | raybits;raybits;…` → bits (`pyocLoop`: the per-ray verdicts of `in_volume_pyoc` combined)
 * `c18.chkpart all | a | b`, `c18.chkconn conns | keptNodes | keptConns`, `c18.chknear data | p | ix | dd` → `1`/`0`
 -/
 namespace Navis.Drv.C18
@@ -138,9 +156,88 @@ def showPairs (l : List (Int × Nat)) : String := ",".intercalate (l.map fun p =
 def showDict {β} (sh : β → String) (d : List (String × β)) : String :=
   "/".intercalate (d.map fun kv => s!"{kv.1}:{sh kv.2}")
 
+/-! ### volume histories -/
+
+open Navis.VolCache in
+/-- geometry transformer of a mutator / derivation: `P:pose` poses the current solid, `S:solid` replaces it -/
+def parseGeomFn (s : String) : Option (Solid → Solid) :=
+  let s := trim s
+  if s.startsWith "P:" then (parsePose ((s.drop 2).toString)).map fun π => π.solid
+  else if s.startsWith "S:" then (parseSolid ((s.drop 2).toString)).map fun S => fun _ => S
+  else none
+
+inductive HOp where
+  | q (i : Nat) (b : String) (rays : Nat) (pts : List P3)
+  | o (op : Navis.VolCache.Op Solid)
+
+def parseHOp (s : String) : Option HOp :=
+  match words s with
+  | ["q", i, b, r, pts] => do
+    let i ← i.toNat?; let r ← r.toNat?; let pts ← parsePts pts
+    pure (.q i b r pts)
+  | ["q", i, b, r] => do
+    let i ← i.toNat?; let r ← r.toNat?
+    pure (.q i b r [])
+  | ["m", i, m, g] => do
+    let i ← i.toNat?; let f ← parseGeomFn g
+    pure (.o (.mutate i m f))
+  | ["c", i, g] => do
+    let i ← i.toNat?; let f ← parseGeomFn g
+    pure (.o (.copy i f))
+  | ["p", i] => do
+    let i ← i.toNat?
+    pure (.o (.pickle i))
+  | _ => none
+
+/-- run the history with `VolCache.step` on the generated spec -/
+def runHist (st : Navis.VolCache.Store Solid) : List HOp → List String
+  | [] => []
+  | .q i b r pts :: t =>
+    let res := Navis.VolCache.step Navis.Gen.VolCache.spec st (.query i b r)
+    match res.2 with
+    | none => "none" :: runHist res.1 t
+    | some a =>
+      s!"{b01 (decide (a.used = a.current))}:{bits (inVolumePoints (mem a.used) pts)}:{bits (inVolumePoints (mem a.current) pts)}"
+        :: runHist res.1 t
+  | .o op :: t => runHist (Navis.VolCache.step Navis.Gen.VolCache.spec st op).1 t
+
+def showSpec (s : Navis.VolCache.Spec) : String :=
+  let bs := ",".intercalate (s.backends.map fun b => s!"{b.name}={b.attr.getD "-"}/{b01 b.raysKeyed}")
+  let ms := ",".intercalate (s.mutators.map fun m => s!"{m.name}={"+".intercalate m.clears}")
+  s!"{bs}|{ms}|{"+".intercalate s.pickleDrops}"
+
 def run (cmd : String) (rest : String) : Option String :=
   let seg := (rest.splitOn "|").map trim
   match cmd, seg with
+  | "hist", S0 :: ops => do
+    let S0 ← parseSolid S0
+    let ops ← ops.mapM parseHOp
+    pure (";".intercalate (runHist [Navis.VolCache.Obj.fresh S0] ops))
+  | "cachespec", _ => pure (showSpec Navis.Gen.VolCache.spec)
+  | "vox", [mode, S, cells, vals, units, off] => do
+    let mode ← parseMode mode; let S ← parseInside S; let cells ← parsePts cells; let vals ← intList? vals
+    let u ← parseP3 units; let o ← parseP3 off
+    let r := inVolumeVox S mode ⟨cells, vals, u, o⟩
+    pure s!"{";".intercalate (r.cells.map fun c => s!"{c.x},{c.y},{c.z}")}|{showInts r.values}"
+  | "chkvox", [mode, S, cells, vals, units, off, kc, kv] => do
+    let mode ← parseMode mode; let S ← parseInside S; let cells ← parsePts cells; let vals ← intList? vals
+    let u ← parseP3 units; let o ← parseP3 off; let kc ← parsePts kc; let kv ← intList? kv
+    pure (b01 (kc.length == kv.length && checkVoxKept S mode ⟨cells, vals, u, o⟩ (kc.zip kv)))
+  | "pyoc", [bb, rays] => do
+    let bb ← parseBits bb
+    let rays ← parseList ";" parseBits rays
+    pure (bits (pyocLoop (fun i => bb.getD i false) (rays.map fun r => fun i => r.getD i false) (List.range bb.length)))
+  | "backend", [av, req] =>
+    let av := strList av
+    match selectBackend (fun b => av.contains b) (strList req) with
+    | some b => pure b
+    | none => pure "ERR:none-available"
+  | "rays", [d, n] => do
+    let d ← (trim d).toNat?
+    let n ← if trim n == "None" then pure none else (trim n).toInt?.map some
+    match effRays d n with
+    | .ok k => pure (toString k)
+    | .valueError => pure "ERR:value"
   | "mem", [S, pts] => do
     let S ← parseInside S; let pts ← parsePts pts
     pure (bits (inVolumePoints S pts))
@@ -149,7 +246,18 @@ def run (cmd : String) (rest : String) : Option String :=
     pure (b01 (checkMask S pts m))
   | "tree", [mode, S, nodes, conns] => do
     let mode ← parseMode mode; let S ← parseInside S; let t ← parseTree nodes conns
-    pure (showTree (pruneByVolume S mode t))
+    pure (showTree (inVolumeTreeAs Navis.Gen.InVolume.shape S mode t))
+  | "prune", [mode, S, nodes, conns] => do
+    let mode ← parseMode mode; let S ← parseInside S; let t ← parseTree nodes conns
+    pure (showTree (pruneByVolumeAs Navis.Gen.InVolume.shape S mode t))
+  | "nlist", [mode, S, nodes, conns] => do
+    let mode ← parseMode mode; let S ← parseInside S; let t ← parseTree nodes conns
+    pure (";".intercalate ((inVolumeListAs Navis.Gen.InVolume.shape S mode [t]).map showTree))
+  | "shape", _ =>
+    let s := Navis.Gen.InVolume.shape
+    let o := fun (x : Option Bool) => match x with | none => "-" | some true => "1" | some false => "0"
+    pure (",".intercalate [o s.invertBeforeShortcut, o s.invertOnOUT, o s.innerModeIN, o s.dictForwardsMode,
+      o s.listForwardsMode, o s.pruneForwardsMode, o s.treeSubsetById, o s.defaultModeIN])
   | "dots", [mode, S, pts, conns] => do
     let mode ← parseMode mode; let S ← parseInside S; let pts ← parsePts pts
     let cs ← parseList ";" parsePConn conns
@@ -163,10 +271,11 @@ def run (cmd : String) (rest : String) : Option String :=
     pure s!"{showNats r.kept}|{showNats r.subset}|{showPairs r.conns}|{r.faces.length}|{b01 (fs.any (·.straddles S vs))}"
   | "dict", [mode, vols, nodes, conns] => do
     let mode ← parseMode mode; let vols ← parseVols vols; let t ← parseTree nodes conns
-    pure (showDict showTree' (inVolumeDict (fun S => inVolumeTree S mode t) (mkDict vols)))
+    pure (showDict showTree' (inVolumeDict (fun S => inVolumeTreeAs Navis.Gen.InVolume.shape S
+      (Navis.Gen.InVolume.shape.dictMode mode) t) (mkDict vols)))
   | "list", [mode, vols, nodes, conns] => do
     let mode ← parseMode mode; let vols ← parseVols vols; let t ← parseTree nodes conns
-    match inVolumeNamed (fun S => inVolumeTree S mode t) vols with
+    match inVolumeNamed (fun S => inVolumeTreeAs Navis.Gen.InVolume.shape S (Navis.Gen.InVolume.shape.dictMode mode) t) vols with
     | none => pure "ERR:dup"
     | some d => pure (showDict showTree' d)
   | "dictpts", [vols, pts] => do
